@@ -217,6 +217,12 @@ def unstring_annotation(node: ast.expr, ctx:'model.Documentable', section:str='a
         return node
     else:
         assert isinstance(expr, ast.expr), expr
+        if hasattr(node, 'parent'):
+            # The nodes parsed from the strings are not linked to their parents yet:
+            # they must be, like the rest of the tree (see Parentage).
+            linker = Parentage()
+            linker.parent = getattr(node, 'parent')
+            linker.visit(expr)
         return expr
 
 class _AnnotationStringParser(ast.NodeTransformer):
